@@ -43,6 +43,17 @@ ALLOWED_AXIOMS = set()
 def _limits():
     import resource
     resource.setrlimit(resource.RLIMIT_AS, (12 << 30, 12 << 30))
+    # the extracted OCaml models recurse on the native stack (non-tail-recursive list functions, fuelled loops):
+    # give them as much stack as the hard limit allows (a model runner dying of Stack_overflow is a machinery failure,
+    # never a verdict about the implementation)
+    try:
+        soft, hard = resource.getrlimit(resource.RLIMIT_STACK)
+        want = hard if hard != resource.RLIM_INFINITY else (4 << 30)
+        if soft == resource.RLIM_INFINITY or soft >= want:
+            return
+        resource.setrlimit(resource.RLIMIT_STACK, (want, hard))
+    except Exception:
+        pass
 
 
 def sh(cmd, cwd=None, timeout=None, env=None, input=None, check=False, limit_mem=False):
